@@ -610,6 +610,40 @@ func csvSideObligations(c *Ctx) {
 		})
 		c.Check(ok && seen, "CSV", shortName(nextRow), "NextRow() == true leaves currentRow non-nil", p.pos(nextRow.Pos()), "on every path returning true the cell f.currentRow holds a non-nil row", "NextRow can return true while currentRow is nil")
 	}
+	// the bytes of a file without a byte order mark reach the csv reader as they are: the fallback handed to
+	// unicode.BOMOverride is encoding.Nop's decoder (a real decoder replaces what is not valid in its encoding, and ids
+	// that differ only in such bytes become one id)
+	for _, fn := range p.ModFns {
+		for _, b := range fn.Blocks {
+			for _, in := range b.Instrs {
+				call, ok := in.(*ssa.Call)
+				if !ok || !strings.HasSuffix(calleeName(call), "encoding/unicode.BOMOverride") || len(call.Call.Args) != 1 {
+					continue
+				}
+				v := call.Call.Args[0]
+				for i := 0; i < 4; i++ {
+					switch x := v.(type) {
+					case *ssa.MakeInterface:
+						v = x.X
+						continue
+					case *ssa.ChangeInterface:
+						v = x.X
+						continue
+					}
+					break
+				}
+				isNop := false
+				if nd, isCall := v.(*ssa.Call); isCall && nd.Call.IsInvoke() && nd.Call.Method.Name() == "NewDecoder" {
+					if ld, isLd := nd.Call.Value.(*ssa.UnOp); isLd && ld.Op == token.MUL {
+						if g, isG := ld.X.(*ssa.Global); isG && g.Name() == "Nop" && g.Pkg != nil && g.Pkg.Pkg.Path() == "golang.org/x/text/encoding" {
+							isNop = true
+						}
+					}
+				}
+				c.Check(isNop, "CSV", shortName(fn), "files without a byte order mark are read as they are", p.ipos(call), "the fallback of unicode.BOMOverride is encoding.Nop.NewDecoder()", "the fallback decoder is "+canon(v)+": bytes that are not valid in its encoding are replaced, so cells are no longer handed out as written")
+			}
+		}
+	}
 	// the accessors hand out the cell as the reader produced it: what a Read / ReadOr method of a column type returns
 	// is a constant, its argument (the default), or an element of a slice of strings -- never the result of a function
 	// applied to the cell (trimming, case folding: ids then no longer match the ids read through another accessor)
